@@ -34,6 +34,57 @@ pub struct FillOut {
 thread_local! {
     static FILL_CALLS: std::cell::Cell<u64> = std::cell::Cell::new(0);
     static REUSED: std::cell::RefCell<Option<FillTessellator>> = std::cell::RefCell::new(None);
+    /// the last inputs the long-lived tessellator was given (most recent last), for the diagnosis of a failure
+    static HISTORY: std::cell::RefCell<Vec<(Entry, PathSpec, FillOptions)>> = std::cell::RefCell::new(Vec::new());
+    static LAST_ROUTE: std::cell::Cell<(bool, bool)> = std::cell::Cell::new((false, false));
+}
+
+/// how the last `fill` was run: (through the long-lived tessellator, into pre-filled buffers)
+pub fn last_route() -> (bool, bool) {
+    LAST_ROUTE.with(|c| c.get())
+}
+
+/// one fill through a given tessellator into empty buffers
+fn fill_with(t: &mut FillTessellator, entry: Entry, spec: &PathSpec, opts: &FillOptions) -> FillOut {
+    let mut buffers: VertexBuffers<Point, u32> = VertexBuffers::new();
+    let (ok, calls, positions) = {
+        let mut rec = Recorder::new(&mut buffers, None);
+        let ok = catch(AssertUnwindSafe(|| run_fill(entry, t, spec, opts, &mut rec))).map(|r| r.is_ok());
+        (ok, rec.calls.clone(), rec.positions.clone())
+    };
+    let mut pos = vec![point(f32::NAN, f32::NAN); buffers.vertices.len().max(positions.iter().map(|p| p.0 as usize + 1).max().unwrap_or(0))];
+    for (id, p) in positions {
+        pos[id as usize] = p;
+    }
+    let tris = calls.iter().filter_map(|c| if let GCall::Tri(a, b, c) = c { Some((*a, *b, *c)) } else { None }).collect();
+    FillOut { ok, positions: pos, tris }
+}
+
+/// after a failure of a fill that went through the long-lived tessellator: the same input through a fresh one, and
+/// through fresh ones that are first given the last 1, 2, ... inputs of the long-lived one.  `bad` decides an output.
+pub fn diagnose_history(entry: Entry, spec: &PathSpec, opts: &FillOptions, bad: &mut dyn FnMut(&FillOut) -> bool) -> String {
+    let fresh = fill_with(&mut FillTessellator::new(), entry, spec, opts);
+    if bad(&fresh) {
+        return "also with a fresh tessellator and empty buffers".to_string();
+    }
+    let hist: Vec<(Entry, PathSpec, FillOptions)> = HISTORY.with(|h| h.borrow().clone());
+    // the current input is the last element of the history when it went through the long-lived tessellator
+    let prior = if hist.is_empty() { &hist[..] } else { &hist[..hist.len() - 1] };
+    for k in 1..=prior.len() {
+        let mut t = FillTessellator::new();
+        for (e, s, o) in &prior[prior.len() - k..] {
+            let _ = fill_with(&mut t, *e, s, o);
+        }
+        let out = fill_with(&mut t, entry, spec, opts);
+        if bad(&out) {
+            let (e, s, o) = &prior[prior.len() - k];
+            return format!(
+                "NOT with a fresh tessellator; reproduced by a tessellator that was first given the previous {} input(s), the earliest being {:?} {:?} {:?} tol {} {}",
+                k, e, o.fill_rule, o.sweep_orientation, o.tolerance, s.text()
+            );
+        }
+    }
+    "NOT with a fresh tessellator, and not reproduced from the last inputs of the long-lived tessellator either".to_string()
 }
 
 pub fn fill(entry: Entry, spec: &PathSpec, opts: &FillOptions) -> FillOut {
@@ -53,11 +104,21 @@ pub fn fill(entry: Entry, spec: &PathSpec, opts: &FillOptions) -> FillOut {
         let mut rec = Recorder::new(&mut buffers, None);
         // every other call goes through one long-lived tessellator (the property does not depend on the tessellator's
         // history: C08); it is replaced after a call that failed or panicked
+        LAST_ROUTE.with(|c| c.set((n % 2 == 0, prefilled)));
         let ok = if n % 2 == 0 {
+            HISTORY.with(|h| {
+                let mut h = h.borrow_mut();
+                h.push((entry, spec.clone(), *opts));
+                if h.len() > 5 {
+                    h.remove(0);
+                }
+            });
             let mut t = REUSED.with(|t| t.borrow_mut().take()).unwrap_or_else(FillTessellator::new);
             let ok = catch(AssertUnwindSafe(|| run_fill(entry, &mut t, spec, opts, &mut rec))).map(|r| r.is_ok());
             if ok == Some(true) {
                 REUSED.with(|c| *c.borrow_mut() = Some(t));
+            } else {
+                HISTORY.with(|h| h.borrow_mut().clear());
             }
             ok
         } else {
@@ -139,17 +200,20 @@ pub fn cover_f64(p: (f64, f64), pos: &[Point], tris: &[(u32, u32, u32)]) -> (usi
         let (a, b, c) = (pos[t.0 as usize], pos[t.1 as usize], pos[t.2 as usize]);
         let o = |u: Point, v: Point| (v.x as f64 - u.x as f64) * (p.1 - u.y as f64) - (v.y as f64 - u.y as f64) * (p.0 - u.x as f64);
         let (d1, d2, d3) = (o(a, b), o(b, c), o(c, a));
-        let neg = d1 < 0.0 || d2 < 0.0 || d3 < 0.0;
-        let posi = d1 > 0.0 || d2 > 0.0 || d3 > 0.0;
+        let len = |u: Point, v: Point| ((v.x as f64 - u.x as f64).hypot(v.y as f64 - u.y as f64)).max(1e-30);
+        let scale = [a, b, c].iter().fold(1.0f64, |m, q| m.max(q.x.abs() as f64).max(q.y.abs() as f64));
+        let (e1, e2, e3) = (d1 / len(a, b), d2 / len(b, c), d3 / len(c, a));
+        // closed triangle: a sample point that lies on an edge shared by two triangles up to the rounding of these f64
+        // orientation tests (distance to the edge's line below 1e-9 of the coordinates) is in the closure of both
+        let zero = 1e-9 * scale;
+        let neg = e1 < -zero || e2 < -zero || e3 < -zero;
+        let posi = e1 > zero || e2 > zero || e3 > zero;
         if !(neg && posi) && (d1 != 0.0 || d2 != 0.0 || d3 != 0.0) {
             closed += 1;
         }
         // interior with a margin: a sliver triangle (three almost collinear vertices, the f32 image of a degenerate
         // one) has no such interior, and a point within rounding distance of an edge is not counted twice
-        let len = |u: Point, v: Point| ((v.x as f64 - u.x as f64).hypot(v.y as f64 - u.y as f64)).max(1e-30);
-        let scale = [a, b, c].iter().fold(1.0f64, |m, q| m.max(q.x.abs() as f64).max(q.y.abs() as f64));
         let delta = 2e-5 * scale;
-        let (e1, e2, e3) = (d1 / len(a, b), d2 / len(b, c), d3 / len(c, a));
         if (e1 > delta && e2 > delta && e3 > delta) || (e1 < -delta && e2 < -delta && e3 < -delta) {
             open += 1;
         }
@@ -297,10 +361,16 @@ fn run_poly(cx: &mut Cx, spec: &PathSpec, k: usize, origin: &str, to_coq: bool) 
     let orient = if (k / 2) % 2 == 0 { Orientation::Vertical } else { Orientation::Horizontal };
     let tol = if (k / 4) % 2 == 0 { 0.1 } else { 0.01 };
     let entry = FILL_ENTRIES[(k / 8) % FILL_ENTRIES.len()];
-    let opts = FillOptions::tolerance(tol).with_fill_rule(rule).with_sweep_orientation(orient);
-    let label = format!("{:?} {:?} tol {} {:?} {}", rule, orient, tol, entry, spec.text());
+    // the meandering polygons are simple by construction (their two chains never touch): half of them are filled with
+    // the no-self-intersection fast path (FillOptions::with_intersections(false)), which must give the same fill
+    let fast_path = origin == "meandering_monotone" && (k / 16) % 2 == 0;
+    let opts = FillOptions::tolerance(tol).with_fill_rule(rule).with_sweep_orientation(orient).with_intersections(!fast_path);
+    let label = format!("{:?} {:?} tol {}{} {:?} {}", rule, orient, tol, if fast_path { " with_intersections(false)" } else { "" }, entry, spec.text());
     cx.st.inc("evaluations");
     cx.st.inc(&format!("origin_{}", origin));
+    if fast_path {
+        cx.st.inc("fills_assuming_no_intersection");
+    }
     cx.st.inc(&format!("entry_{:?}", entry));
     let out = fill(entry, spec, &opts);
     let ok = match out.ok {
@@ -326,6 +396,16 @@ fn run_poly(cx: &mut Cx, spec: &PathSpec, k: usize, origin: &str, to_coq: bool) 
     let edges64 = outline_edges(spec, 0.01);
     let band = tol as f64;
     if let Some(msg) = direct_coverage(&edges64, &out.positions, &out.tris, rule, band + 1e-4, &mut cx.rng, true) {
+        let (reused, prefilled) = last_route();
+        let mut route = format!(" [route: {} tessellator, {} buffers", if reused { "long-lived" } else { "fresh" }, if prefilled { "pre-filled" } else { "empty" });
+        if reused || prefilled {
+            let mut probe_rng = Rng::new(0x5eed);
+            let mut bad = |o: &FillOut| o.ok != Some(true) || direct_coverage(&edges64, &o.positions, &o.tris, rule, band + 1e-4, &mut probe_rng, true).is_some();
+            route.push_str("; ");
+            route.push_str(&diagnose_history(entry, spec, &opts, &mut bad));
+        }
+        route.push(']');
+        let label = format!("{}{}", label, route);
         let mut f = vec![("what", jstr(&format!("fill does not cover exactly the fill-rule interior: {}", msg))), ("input", jstr(&label))];
         // known finding K14: many-vertex self-intersecting polygons in degenerate position (a vertex exactly on
         // the interior of another edge, or collinear overlapping edges)
@@ -1027,7 +1107,17 @@ pub fn main_c03(args: &Args) -> std::io::Result<()> {
             let (wd, ht) = (4.0 + rng.below(36) as f32, 4.0 + rng.below(36) as f32);
             let half = wd.min(ht) * 0.5;
             let mut rad = |r: &mut Rng| -> f32 { if r.chance(1, 3) { 0.0 } else { (1 + r.below(8)) as f32 / 8.0 * half } };
-            let radii = BorderRadii { top_left: rad(&mut rng), top_right: rad(&mut rng), bottom_left: rad(&mut rng), bottom_right: rad(&mut rng) };
+            let mut radii = BorderRadii { top_left: rad(&mut rng), top_right: rad(&mut rng), bottom_left: rad(&mut rng), bottom_right: rad(&mut rng) };
+            // the shape expected: the radii as given - or, one case in four, one radius for all corners that does not fit
+            // (half the smaller side up to far beyond it, either sign): the corners then take half the smaller side and
+            // the shape is a stadium (a circle for a square)
+            let mut expected = radii;
+            if it % 4 == 3 {
+                let r = half * *rng.pick(&[1.0f32, 1.25, 1.5, 2.0, 3.0, 50.0]) * if rng.chance(1, 3) { -1.0 } else { 1.0 };
+                radii = BorderRadii::new(r);
+                expected = BorderRadii::new(half);
+                st.inc("rounded_rectangles_with_radii_that_do_not_fit");
+            }
             let winding = if rng.chance(1, 2) { Winding::Positive } else { Winding::Negative };
             let tol = *rng.pick(&[0.02f32, 0.1]);
             let rule = if rng.chance(1, 2) { FillRule::EvenOdd } else { FillRule::NonZero };
@@ -1073,10 +1163,10 @@ pub fn main_c03(args: &Args) -> std::io::Result<()> {
                 }
                 // (corner position, radius, direction into the rectangle); y grows downwards: "top" is min y
                 let corners = [
-                    ((lx, ly), radii.top_left as f64, (1.0, 1.0)),
-                    ((hx, ly), radii.top_right as f64, (-1.0, 1.0)),
-                    ((lx, hy), radii.bottom_left as f64, (1.0, -1.0)),
-                    ((hx, hy), radii.bottom_right as f64, (-1.0, -1.0)),
+                    ((lx, ly), expected.top_left as f64, (1.0, 1.0)),
+                    ((hx, ly), expected.top_right as f64, (-1.0, 1.0)),
+                    ((lx, hy), expected.bottom_left as f64, (1.0, -1.0)),
+                    ((hx, hy), expected.bottom_right as f64, (-1.0, -1.0)),
                 ];
                 for (c, r0, d) in corners {
                     let r = (r0 + m).max(0.0);
